@@ -13,7 +13,7 @@ from .heap import (Class, Obj, Func, Native, Property, StaticMethod, Module,
 from .interp import Env, Interp, AutoVal, Raised, LazyImport, OpaqueStr
 
 REPO = os.environ.get("VERIF_REPO", "/repo")
-SRC = os.path.join(REPO, "src", "biotite")
+SRC = os.environ.get("VERIF_SRC") or os.path.join(REPO, "src", "biotite")
 
 
 class Unknown:
@@ -97,6 +97,14 @@ class Loader:
             except Unsupported as e:
                 skipped.append((getattr(st, "lineno", 0), str(e)))
         mod.skipped = skipped
+        if info:
+            # members of a named `cdef enum` are also visible unqualified
+            for en in info.get("enums", {}):
+                c = mod.ns.get(en)
+                if isinstance(c, Class):
+                    for k, v in c.ns.items():
+                        if isinstance(v, int) and not k.startswith("_"):
+                            mod.ns.setdefault(k, v)
         return mod
 
     # ---- imports
